@@ -67,6 +67,20 @@ func verifC18Settle(before int) (int, bool) {
 	}
 }
 
+// verifC18PanicString renders a recovered panic value. Strings and errors are taken as
+// they are, without fmt: sync.WaitGroup.Wait panics ("WaitGroup is reused ...") with the
+// race detector's synchronisation tracking switched off for the goroutine, and anything
+// that goes through a sync.Pool afterwards (fmt does) is then reported as a bogus race.
+func verifC18PanicString(r interface{}) string {
+	switch v := r.(type) {
+	case string:
+		return v
+	case error:
+		return v.Error()
+	}
+	return fmt.Sprint(r)
+}
+
 // verifC18Guard runs fn in its own goroutine with a recover; it returns the recovered
 // panic value as a string ("" if none) and whether fn finished within the stop timeout.
 func verifC18Guard(fn func()) (panicked string, finished bool) {
@@ -74,7 +88,7 @@ func verifC18Guard(fn func()) (panicked string, finished bool) {
 	go func() {
 		defer func() {
 			if r := recover(); r != nil {
-				done <- fmt.Sprint(r)
+				done <- verifC18PanicString(r)
 				return
 			}
 			done <- ""
